@@ -61,6 +61,18 @@ def run(ctx):
             res.violation("printing altered the stored values", case, clause="stored values")
         lines = [l for l in buf.getvalue().split("\n") if l != ""]
         res.count("prints")
+        if res.evaluations % 5 == 0:
+            def again(p=p, mother=mother, opts=opts):
+                b = io.StringIO()
+                try:
+                    with contextlib.redirect_stdout(b):
+                        p.print_decay_modes(mother, pdg_name=opts[0], print_model=opts[1], display_photos_keyword=opts[2], ascending=opts[3],
+                                            normalize=opts[4], scale=None if opts[5] is None else float(opts[5]))
+                except Exception as e:
+                    return "raised " + type(e).__name__
+                return [l for l in b.getvalue().split("\n") if l != ""]
+
+            res.remember(case, again, lines if err is None else "raised " + err)
 
         def on(ans, case=case, lines=lines, err=err):
             if ans is None:
